@@ -256,6 +256,91 @@ func runC12(c *core.Ctx) {
 		}
 	}
 
+	c.Rule("C12.usableafterreject", "a rejected key leaves the assembler usable: for every string-key assigning method of a map/struct key assembler (basicnode, generated code) that tests the protocol state on entry, every return that rejects the key (a non-nil ErrRepeatedMapKey / ErrInvalidKey) leaves the state field at the assembler's initial (zero) state - the state in which AssembleKey, AssembleEntry and Finish are legal - and not in the mid-key state the method was entered in (the next call would panic)", 2)
+	{
+		nrej := 0
+		for _, fn := range p.ModFns {
+			pk := core.FuncPkg(fn)
+			if pk == nil || len(fn.Blocks) == 0 || fn.Synthetic != "" || fn.Signature.Recv() == nil || fn.Name() != "AssignString" {
+				continue
+			}
+			rel := core.RelPkg(pk.Path())
+			if rel != "node/basicnode" && rel != "node/gendemo" {
+				continue
+			}
+			errIdx := core.ErrResultIndex(fn)
+			if errIdx < 0 {
+				continue
+			}
+			// the state field this method tests on entry, and the constant it insists on
+			var stateT *types.Named
+			guard := ""
+			core.InstrsR(fn, func(in ssa.Instruction) {
+				ifi, ok := in.(*ssa.If)
+				if !ok || guard != "" {
+					return
+				}
+				cmp, ok := core.IfCompare(ifi)
+				if !ok || (cmp.Op != token.EQL && cmp.Op != token.NEQ) {
+					return
+				}
+				u, ok := cmp.X.(*ssa.UnOp)
+				if !ok || u.Op != token.MUL {
+					return
+				}
+				fa, ok := u.X.(*ssa.FieldAddr)
+				if !ok || !isStateField(fa) {
+					return
+				}
+				cv := core.ConstVal(cmp.Y)
+				if cv == nil {
+					return
+				}
+				guard = cv.ExactString()
+				stateT, _ = types.Unalias(fieldVar(fa).Type()).(*types.Named)
+			})
+			if guard == "" || stateT == nil {
+				continue
+			}
+			constName := map[string]string{}
+			zero := ""
+			for n, v := range enumConsts(stateT) {
+				constName[v.ExactString()] = n
+				if v.ExactString() == "0" {
+					zero = n
+				}
+			}
+			isStateAddr := func(v ssa.Value) bool {
+				fa, ok := v.(*ssa.FieldAddr)
+				if !ok || !isStateField(fa) {
+					return false
+				}
+				ft, _ := types.Unalias(fieldVar(fa).Type()).(*types.Named)
+				return ft == stateT
+			}
+			x := &tsExtractor{fn: fn, isStateAddr: isStateAddr, constName: constName, errIdx: errIdx}
+			bad := ""
+			rejects := 0
+			for o := range x.run(constName[guard]) {
+				if !strings.HasPrefix(o.Kind, "reject:") || !(strings.Contains(o.Kind, "ErrRepeatedMapKey") || strings.Contains(o.Kind, "ErrInvalidKey")) {
+					continue
+				}
+				rejects++
+				if o.End != zero {
+					bad = fmt.Sprintf("a %s return leaves the state at %s", strings.TrimPrefix(o.Kind, "reject:"), o.End)
+				}
+			}
+			if rejects == 0 {
+				continue
+			}
+			nrej++
+			c.Check(bad == "", core.FuncKey(fn)+"#usable-after-reject", p.Pos(fn.Pos()), "a rejected key leaves the assembler in its initial state", bad+" (entered in "+constName[guard]+", the initial state is "+zero+"): after a repeated or unknown key was rejected, the next AssembleKey / AssembleEntry / Finish on the same assembler panics instead of carrying on as if the rejected call had not happened")
+		}
+		if nrej == 0 {
+			c.Undecided("node#key-assemblers", "-", "no key-assigning method with a state test and a key rejection found")
+		}
+	}
+
 	c.Rule("C12.repeat", "both key routes of every map/struct assembler can reject a repeated key (the C09.repeat obligations, reported under this property as well)", 30)
 	sub := &core.Ctx{P: p, Prop: "C12"}
 	runC09(sub)
@@ -269,6 +354,19 @@ func runC12(c *core.Ctx) {
 
 	c.Rule("C12.finishhook", finishHookText, 10)
 	checkFinishHook(c)
+
+	c.Rule("C12.assignnodechecked", "the C09.assignnodechecked obligations, reported under this property as well (an assignment of a kind the position cannot hold is reported by an error from that call - also when the call is AssignNode)", 2)
+	{
+		sub := &core.Ctx{P: p, Prop: "C12"}
+		runC09(sub)
+		for _, o := range sub.Obls {
+			if o.Rule == "C09.assignnodechecked" && !strings.HasSuffix(o.Construct, "#instance-floor") {
+				o.Rule = "C12.assignnodechecked"
+				o.Property = "C12"
+				c.Obls = append(c.Obls, o)
+			}
+		}
+	}
 
 	c.Rule("C12.freshslot", freshSlotText, 6)
 	checkFreshSlot(c)
